@@ -19,17 +19,21 @@ def run_case(c):
         root = build(c["tree"], AnyNode, nodes=nodes)
     NONE = 99          # token of Python's None (as an attribute value and as the searched value)
     via = c.get("via")
+    aname = c.get("aname", "a")        # the attribute's name is used literally, dots included
+    if aname != "a":
+        for n in nodes.values():
+            n.a = 1                    # what a dotted traversal (parent.a) would find instead
     for k, v in c["attrs"]:
         val = None if v == NONE else v
         if via and not c.get("adv"):
             # the attribute exists without being in the instance dictionary: a class attribute, or a property
             base = type(nodes[k])
             if via == "class":
-                nodes[k].__class__ = type("WithClassAttr", (base,), {"a": val})
+                nodes[k].__class__ = type("WithClassAttr", (base,), {aname: val})
             else:
-                nodes[k].__class__ = type("WithProperty", (base,), {"a": property(lambda self, _v=val: _v)})
+                nodes[k].__class__ = type("WithProperty", (base,), {aname: property(lambda self, _v=val: _v)})
         else:
-            nodes[k].a = val
+            setattr(nodes[k], aname, val)
     if c["value"] == NONE:
         c = dict(c, value=None)
     filt = (lambda n, s=set(c["filt"]): n.lbl in s) if c["filt"] is not None else None
@@ -43,9 +47,9 @@ def run_case(c):
             r = m.find(root, filter_=filt, stop=stop, maxlevel=c["ml"])
             r = () if r is None else (r,)
         elif fn == "findall_by_attr":
-            r = m.findall_by_attr(root, c["value"], name="a", maxlevel=c["ml"], mincount=c["lo"], maxcount=c["hi"])
+            r = m.findall_by_attr(root, c["value"], name=aname, maxlevel=c["ml"], mincount=c["lo"], maxcount=c["hi"])
         elif fn == "find_by_attr":
-            r = m.find_by_attr(root, c["value"], name="a", maxlevel=c["ml"])
+            r = m.find_by_attr(root, c["value"], name=aname, maxlevel=c["ml"])
             r = () if r is None else (r,)
         else:
             raise ValueError(fn)
